@@ -137,7 +137,11 @@ def part(V, tr, sd):
     three = [c for c in cfgs if len(c) == 3]
     small = [c for c in cfgs if len(c) < 3]
     if tr == "quick":
-        cfgs = rnd.sample(three, min(len(three), 130)) + rnd.sample(small, min(len(small), 50))
+        # every configuration whose three controllers share one level (the relevant-nets rule of a level is exercised by several
+        # controllers naming different nets, in every order) + a seeded sample of the others
+        onelevel = [c for c in three if len({x["level"] for x in c}) == 1]
+        rest = [c for c in three if len({x["level"] for x in c}) > 1]
+        cfgs = onelevel + rnd.sample(rest, min(len(rest), 60)) + rnd.sample(small, min(len(small), 40))
     jobs = [{"id": "mc%d" % i, "ctrls": c} for i, c in enumerate(cfgs)]
     cases = core.pmap(run_case, jobs, chunksize=4)
     res, fails = validate(cases)
